@@ -11,7 +11,7 @@ ID = "C18"
 LEVEL = "exploration"
 RULE = ("grids with 0-2 leading blank rows, optional blank first column, known columns in random order (titles sometimes padded with blanks, ranged titles sometimes numbers), a contiguous "
         "group of 1-3 ranged columns, unknown extra columns behind a known one, blank cells anywhere, 0-8 data rows, "
-        "rows with blank key, trailing content after a blank row / a row with blank first cell; rule sets: str / int / "
+        "rows with blank key, trailing content after a blank row / a row with blank first cell; rule sets: logical id of 0, 1 or 2 attributes, str / int / "
         "bool / list / set readers, ranged set or ranged dict or no ranged attribute, optional column present or "
         "missing, external attribute, both stop_on rules, plain or ladder reading (ladder grids have blank leading "
         "runs anywhere). Oracle: (1) every attribute equals the harness' conversion of the cell(s) at the "
@@ -85,6 +85,16 @@ class Obj(X.XlsObject):
     _NUM_ID_ATTRS = 1
 
 
+class Obj2(Obj):
+    """the logical id consists of two attributes"""
+    _NUM_ID_ATTRS = 2
+
+
+class Obj0(Obj):
+    """no logical id: every data row gives an object"""
+    _NUM_ID_ATTRS = 0
+
+
 def blank(v):
     return v is None or str(v).strip() == ""
 
@@ -111,6 +121,7 @@ KNOWN = [('key', 'Key', 'str'), ('name', 'Name', 'str'), ('num', 'Num', 'int'), 
 def gen_sheet(rng):
     spec = {}
     spec['tags_kind'] = rng.choice(['list', 'set'])
+    spec['n_id'] = rng.choice([1, 1, 1, 2, 2, 0])
     spec['range_kind'] = rng.choice(['set', 'set', 'dict', 'none'])
     spec['have_opt'] = rng.random() < 0.5
     spec['ladder'] = rng.random() < 0.4
@@ -162,7 +173,8 @@ def gen_sheet(rng):
         if t == 'Flag':
             return rng.choice([None, 'v', 1, '', 'True', False, '1', 'False'])
         if t == 'Tags':
-            return rng.choice([None, "a, b\nc", "q", ",,", " x ,x"])
+            return rng.choice([None, "a, b\nc", "q", ",,", " x ,x", "R\x0bD, ops", "a\x0cb", "p\rq,r", "x\u2028y\nz",
+                               "m\x1dn"])
         if t == 'Opt':
             return rng.choice([None, "o%d" % i])
         if t.startswith("Extra"):
@@ -251,7 +263,10 @@ def expected_objects(spec):
     out = []
     for eff in eff_rows:
         kv, _ = eff[tcol['Key']]
-        if kv is None or conv('str', kv) is None:
+        nv, _ = eff[tcol['Name']]
+        n_id = spec.get('n_id', 1)
+        # no object when all the cells of the logical id are empty
+        if (n_id == 1 and kv is None) or (n_id == 2 and kv is None and nv is None):
             out.append(None)
             continue
         o = {}
@@ -288,8 +303,9 @@ def judge(ctx, spec, case):
     grid = spec['grid']
     ws = WS("sh 1", grid)
     rules = make_rules(spec)
+    obj_cls = {0: Obj0, 1: Obj, 2: Obj2}[spec.get('n_id', 1)]
     try:
-        objs = X.read_table(ws, Obj, rules, stop_on=spec['stop_on'], ladder_format=spec['ladder'])
+        objs = X.read_table(ws, obj_cls, rules, stop_on=spec['stop_on'], ladder_format=spec['ladder'])
     except Exception as err:
         ctx.violation("reading-raises", {"type": type(err).__name__, "msg": str(err)[:200]}, case)
         return
@@ -379,7 +395,7 @@ def judge(ctx, spec, case):
         eff_rows, _ = reference_rows(spec)
         filled = [list(r) for r in grid[:spec['nblank'] + 1]] + [[v for v, _ in eff] for eff in eff_rows]
         try:
-            plain = X.read_table(WS("sh 1", filled), Obj, rules, stop_on=spec['stop_on'], ladder_format=False)
+            plain = X.read_table(WS("sh 1", filled), obj_cls, rules, stop_on=spec['stop_on'], ladder_format=False)
         except Exception as err:
             plain = None
             if not any(all(blank(v) for v in row) for row in filled[spec['nblank'] + 1:]):
